@@ -208,6 +208,26 @@ impl Strm {
         z.opaque = ctl.opaque();
         Strm { z, ctl: Some(ctl) }
     }
+    /// malloc/free with every block filled with `fill` first: what the library reads before writing it is then
+    /// the same in every execution (and can be varied on purpose)
+    pub fn filled(fill: u8) -> Strm {
+        unsafe extern "C" fn fz_alloc(opaque: *mut std::ffi::c_void, items: u32, size: u32) -> *mut std::ffi::c_void {
+            let n = items as usize * size as usize;
+            let p = libc::malloc(n.max(1));
+            if !p.is_null() {
+                std::ptr::write_bytes(p as *mut u8, opaque as usize as u8, n);
+            }
+            p
+        }
+        unsafe extern "C" fn fz_free(_opaque: *mut std::ffi::c_void, p: *mut std::ffi::c_void) {
+            libc::free(p)
+        }
+        let mut z = zeroed_stream();
+        z.zalloc = Some(fz_alloc);
+        z.zfree = Some(fz_free);
+        z.opaque = fill as usize as *mut std::ffi::c_void;
+        Strm { z, ctl: None }
+    }
     #[inline]
     pub fn p(&mut self) -> *mut z_stream {
         &mut *self.z as *mut z_stream
